@@ -102,6 +102,14 @@ func guardsOf(fn *ssa.Function) []guard {
 			}
 		case *ssa.Call:
 			gs = append(gs, guard{iff: iff, call: x, neg: neg})
+			// a new boolean helper `return a < u || b < c`: on the true edge of `if helper(...)` one of
+			// the comparisons held - each of them is a guard of this If (operands are looked through
+			// to the arguments of the call)
+			if hp := x.Call.StaticCallee(); hp != nil && !neg && theCtx.IsNew(hp) {
+				for _, d := range predicateDisjuncts(hp) {
+					gs = append(gs, guard{iff: iff, x: d.X, y: d.Y, op: d.Op})
+				}
+			}
 		}
 	}
 	return gs
@@ -603,4 +611,69 @@ func roleFieldValue(c *Ctx, f *types.Var) role {
 	return func(v ssa.Value) bool {
 		return f != nil && (isFieldLoadOf(v, f) || vals[stripConv(v)])
 	}
+}
+
+// predicateDisjuncts: the comparisons c1..cn of a small boolean function whose result is
+// c1 || ... || cn (nil for any other shape).
+func predicateDisjuncts(fn *ssa.Function) []*ssa.BinOp {
+	if fn == nil || len(fn.Blocks) == 0 || len(fn.Blocks) > 8 || fn.Signature.Results().Len() != 1 {
+		return nil
+	}
+	if bt, ok := fn.Signature.Results().At(0).Type().Underlying().(*types.Basic); !ok || bt.Kind() != types.Bool {
+		return nil
+	}
+	var rets []*ssa.Return
+	for _, b := range fn.Blocks {
+		if len(b.Instrs) > 0 {
+			if ret, ok := b.Instrs[len(b.Instrs)-1].(*ssa.Return); ok {
+				rets = append(rets, ret)
+			}
+		}
+	}
+	if len(rets) != 1 {
+		return nil
+	}
+	var out []*ssa.BinOp
+	var walk func(v ssa.Value, depth int) bool
+	walk = func(v ssa.Value, depth int) bool {
+		if depth > 6 {
+			return false
+		}
+		switch x := v.(type) {
+		case *ssa.BinOp:
+			if !isCmp(x.Op) {
+				return false
+			}
+			out = append(out, x)
+			return true
+		case *ssa.Phi:
+			for i, e := range x.Edges {
+				if k, isK := e.(*ssa.Const); isK {
+					bv, isB := constBool(k)
+					if !isB || !bv {
+						return false // an && form
+					}
+					// the edge carrying `true` comes from a block that ends in `if ci goto <here>`
+					pb := x.Block().Preds[i]
+					iff, isIf := pb.Instrs[len(pb.Instrs)-1].(*ssa.If)
+					if !isIf || pb.Succs[0] != x.Block() {
+						return false
+					}
+					if !walk(iff.Cond, depth+1) {
+						return false
+					}
+					continue
+				}
+				if !walk(e, depth+1) {
+					return false
+				}
+			}
+			return true
+		}
+		return false
+	}
+	if !walk(rets[0].Results[0], 0) {
+		return nil
+	}
+	return out
 }
